@@ -152,6 +152,8 @@ def feasible_valuations(f, pos, domains):
             if v is not None and bool(v) != a[1]:
                 ok = False
                 break
+        if ok and _walk_excludes(f, pos, val):
+            ok = False        # a flag local computed from the valuated quantities steers the walk away from this position
         if ok:
             feas.append(val)
     opaque = []
@@ -161,6 +163,39 @@ def feasible_valuations(f, pos, domains):
         if eval_expr(f, a[0], {k: list(domains[k])[0] for k in keys}) is None:
             opaque.append((key(f, a[0]), a[1]))
     return feas, opaque, atoms
+
+
+def _walk_excludes(f, pos, val):
+    """True when the guard-directed walk from the entry under `val` (locals followed) runs to a return without any undetermined
+    branch and never visits `pos`: the position is unreachable under this valuation although no dominating atom says so directly
+    (`bool need = true; if(t == S) need = ref > 1; if(need) {...}`)."""
+    tgt = None
+    b, i = pos
+    els = f.blocks[b]["el"]
+    if i < len(els) and isinstance(els[i], int):
+        tgt = els[i]
+    if tgt is None:
+        return False
+    cache = getattr(f, "_walk_cache", None)
+    if cache is None:
+        cache = f._walk_cache = {}
+    k = tuple(sorted(val.items()))
+    if k not in cache:
+        # walk_vals tracks stores to valuated keys as well: stop following once one of them is overwritten (then nothing is excluded)
+        seen, end, _fv = walk_vals(f, f.entry, val)
+        tainted = False
+        for e in seen:
+            ne = f.nodes[e]
+            if ne["k"] in ("BinaryOperator", "CompoundAssignOperator") and ne.get("op", "").endswith("=") and ne.get("op") not in ("==", "!=", "<=", ">=") \
+               and key(f, ne["c"][0]) in val:
+                tainted = True
+            if ne["k"] in ("CXXMemberCallExpr",) and not ne.get("csig", "").endswith(" const") and "this" in f.r(e)[:6]:
+                tainted = tainted or False
+        cache[k] = (set(seen), end, tainted)
+    seen, end, tainted = cache[k]
+    if tainted or not (isinstance(end, int) or end == "exit"):
+        return False
+    return tgt not in seen
 
 
 def incoming_edge_atoms(f, block):
